@@ -89,6 +89,18 @@ CHECKS = {
             "streams around 16384 lines, long lines, CRLF, missing final newline and > 16 MiB under several read schedules, compared line by line "
             "with single-line runs (StreamTrace.tla) and with each other",
             "terminator normalisation (CRLF->LF, final newline added) is not a violation; two known findings (window overflow, unterminated tail after a line-limit fill)", "5 C18"),
+    "C05": ("model_checking", "TLA+ DateArith/Biz (meaning of applying a duration) model-checked; real ddiff on all ordered pairs of point sets x duration formats validated by DiffTrace (Apply(earlier, printed) = later, sign, antisymmetry)",
+            "DiffTrace.tla applies dateadd's model-checked semantics (months/years in one step keeping the day, week/day index arithmetic, "
+            "business days by counting, time with roll-over; year-week-day durations in the ISO week calendar) to the components the real "
+            "ddiff printed for every ordered pair of 3|25 point sets (leap days, year ends, ISO 52/53 boundaries, +-70/+-800 days, far pairs) "
+            "and 16 formats, and demands the flipped sign for the swapped operands",
+            "pairs are sampled (29 fixed boundary days + seeded clusters), not all 10^11; month/year formats for dates with earlier day <= 28 (week <= 52) "
+            "only; %db for pairs of business days; known finding: %Y %d", "5 C05"),
+    "C06": ("model_checking", "TLA+ Duration (Split: Recombine, InRange, Plain) model-checked over all 31 unit subsets; integers printed by the real ddiff validated by DurationTrace incl. the single leading minus sign",
+            "Duration.tla is model-checked over every subset of {w,d,H,M,S} and boundary totals; DurationTrace.tla applies Split to what ddiff "
+            "printed for all ordered pairs of 2|12 clusters of date-times (incl. spans beyond 2^31 s) under every subset (thorough: both orders, "
+            "zero padding); year/month formats are checked for months < 12 and one sign",
+            "totals as <<day diff, second diff>>; seconds-only formats for spans below 2^31 s; conservation of Y/m parts is C05", "5 C06"),
 }
 NOT_APPLICABLE = []
 
